@@ -23,6 +23,8 @@ bad=0
 for d in sorted(glob.glob(V+"/controls/*/")):
     name=os.path.basename(d.rstrip("/"))
     if flt not in name: continue
+    if not os.path.exists(d+"patch.diff"):
+        print("%-10s retired"%name); continue
     t=tempfile.mkdtemp(prefix="avfs-ctl-")
     try:
         subprocess.run(["rsync","-a","--exclude",".git","/repo/",t+"/"],check=True)
